@@ -39,7 +39,7 @@ def histories(ctx, model_ok, tmp, mode, trust=False):
     with open(os.path.join(area, "in", "sentinel.txt"), "w") as fh:
         fh.write("do not touch\n")
     N = 1500 if ctx.quick() else 60000
-    n_hist = (40 if mode == "C09" else 10) if ctx.quick() else 400
+    n_hist = (40 if mode == "C09" else 10) if ctx.quick() else 250
     if trust:
         n_hist = 14 if ctx.quick() else 200
 
